@@ -70,3 +70,22 @@ claim("C13", "Eq-completeness over MIR field reads + call-graph reachability fro
       "tracked-reachable code." + DECIDES + " The equivalence of incremental and from-scratch results over all edit histories is not decided.",
       "trusted: rustc MIR, fact dumper, class-hierarchy call graph restricted to visible crates; derived PartialEq is complete by construction",
       "DESIGN.md section 4, C13")
+claim("C12", "type-resolved who-may-call over all workspace MIR + enumerated tables with reasons + call-graph reachability from tracked functions",
+      "(a) Every place where workspace code can observe the iteration order of a std/hashbrown hash container (order-revealing methods, the "
+      "container handed to a generic consumer, serde serialisation) is in the reasoned table; the Unordered* wrappers expose iteration only "
+      "sorted or through order-insensitive results; (b) no schedule-dependent id type implements Ord, and the functions that compare or "
+      "expose unstable interned ids are exactly an enumerated, individually argued set (two of them are genuine defects, listed as known "
+      "findings); (c) the parallel warm-up returns nothing and ensure_diagnostics returns the sequential result; no ambient input (env, "
+      "clock, randomness, thread/process id) is read in code reachable from a tracked query outside the table." + DECIDES +
+      " That the remaining order sources (BFS order, OrderedHash* insertion order) are deterministic functions of the sources is not decided.",
+      "trusted: rustc MIR and type resolution, fact dumper; tables c12_hash_iter.tsv / c12_id_order.tsv / c12_ambient.tsv carry the reasons",
+      "DESIGN.md section 4, C12")
+claim("C08", "path rules on MIR (guard obligations on the demand-analysis callbacks) + gate propagation over the call graph",
+      "Second sentence of C08 only: whenever the borrow checker's demand analysis meets a second use of a variable or an undemanded "
+      "variable, the reporter callback is reached on every path; the callbacks report VariableMoved / VariableNotDropped / "
+      "DesnappingANonCopyableType unless copy / drop / destruct / panic-destruct applies with the right impl-function pairing; and every call "
+      "leading to a Sierra-program query is dominated by the success edge of the diagnostics gate (ensure / ensure_diagnostics / !check) or "
+      "lies in a function all of whose callers are, except documented-precondition entry points." + DECIDES +
+      " Totality of the back end on error-free programs (first sentence) is not decided.",
+      "trusted: rustc MIR, fact dumper, rules/guards.py; assumes indexmap insert/swap_remove semantics",
+      "DESIGN.md section 4, C08")
